@@ -64,6 +64,8 @@ mod protocol;
 mod remote_actor;
 
 pub mod macros;
+#[cfg(feature = "verif")]
+pub mod verif;
 pub mod node;
 
 /// Node's are representing by an integer id
